@@ -481,19 +481,31 @@ impl StreamsState {
     pub open spec fn fc(&self) -> (u64, u64, u64, VarInt, u64, u64) {
         (self.local_max_data, self.data_recvd, self.receive_window_shrink_debt, self.sent_max_data, self.receive_window, self.stream_receive_window)
     }
+    /// the application is only ever handed remote streams within the advertised stream count (`accept` hands out ids below next_remote)
+    pub open spec fn remote_bounded(&self) -> bool { self.next_remote[0] <= self.max_remote[0] && self.next_remote[1] <= self.max_remote[1] }
     /// send-side connection flow-control counters
     pub open spec fn sfc(&self) -> (u64, u64, u64, u64) { (self.max_data, self.data_sent, self.unacked_data, self.send_window) }
-    /// opaque: bookkeeping when a receive half is dropped (stream counters, recycling the allocation); touches no flow-control field
+    /// opaque: bookkeeping when a receive half is dropped (recycling the allocation, then stream_freed(id, Recv), which is under
+    /// contract above: the window of remote streams only ever grows and no stream is opened); touches no flow-control field
     #[verifier::external_body]
     pub fn stream_recv_freed(&mut self, id: StreamId, recv: StreamRecv)
         ensures final(self).fc() == old(self).fc(), final(self).recv == old(self).recv, final(self).side == old(self).side,
+            final(self).next_remote == old(self).next_remote, final(self).max_remote[0] >= old(self).max_remote[0], final(self).max_remote[1] >= old(self).max_remote[1],
     { unimplemented!() }
-    /// opaque: application events / implicit opening of lower-numbered remote streams; touches no flow-control field
-    #[verifier::external_body]
-    pub fn on_stream_frame(&mut self, notify_readable: bool, stream: StreamId)
-        ensures final(self).fc() == old(self).fc(), final(self).recv == old(self).recv, final(self).side == old(self).side, final(self).send == old(self).send,
-            final(self).max_data == old(self).max_data, final(self).data_sent == old(self).data_sent, final(self).unacked_data == old(self).unacked_data,
-    { unimplemented!() }
+//@ extract quinn-proto/src/connection/streams/state.rs :: impl StreamsState::fn on_stream_frame
+//@ props C06
+//@ at-start
+        proof { let x = stream.0; assert(x >> 2 < 0x4000_0000_0000_0000u64) by (bit_vector); }
+//@ contract
+        ensures final(self).fc() == old(self).fc(), final(self).sfc() == old(self).sfc(), final(self).recv == old(self).recv, final(self).side == old(self).side, final(self).send == old(self).send,
+            final(self).max_remote == old(self).max_remote, final(self).next == old(self).next, final(self).max == old(self).max,
+            final(self).allocated_remote_count == old(self).allocated_remote_count, final(self).max_concurrent_remote_count == old(self).max_concurrent_remote_count,
+            final(self).send_streams == old(self).send_streams, final(self).next_reported_remote == old(self).next_reported_remote,
+            // a frame naming a remote stream implicitly opens it and every lower-numbered stream of its kind -- and nothing else
+            ({ let d = di(stream.dir());
+               &&& final(self).next_remote[d] == (if stream.initiator() != old(self).side && stream.index() >= old(self).next_remote[d] { (stream.index() + 1) as u64 } else { old(self).next_remote[d] })
+               &&& final(self).next_remote[1 - d] == old(self).next_remote[1 - d] }),
+//@ end
 
 //@ extract quinn-proto/src/connection/streams/state.rs :: impl StreamsState::fn new
 //@ props C05 C06
@@ -616,13 +628,16 @@ impl StreamsState {
             }
 //@ end
 //@ extract quinn-proto/src/connection/streams/state.rs :: impl StreamsState::fn received_max_stream_data
-//@ props C05 C03
+//@ props C05 C03 C06
 //@ ret res
 //@ replace ws:self .send .get_mut(&id) .map(get_or_insert_send(max_send_data)) => send_entry(&mut self.send, id, max_send_data)
 //@ contract
         requires old(self).data_sent <= old(self).max_data
         ensures
             final(self).max_data == old(self).max_data, final(self).data_sent == old(self).data_sent, final(self).unacked_data == old(self).unacked_data,
+            // a frame naming a stream beyond the advertised count never opens it (C06)
+            old(self).remote_bounded() ==> final(self).remote_bounded(),
+            res is Err ==> final(self).next_remote == old(self).next_remote,
             match res {
                 // a stream's limit only ever moves up, to the value just received (and only while the stream can still send)
                 Ok(()) => !(id.initiator() != old(self).side && id.dir() == Dir::Uni) && match send_abs(old(self).send, id) {
@@ -630,8 +645,12 @@ impl StreamsState {
                         && s1.state == s0.state && s1.pending == s0.pending,
                     None => final(self).send == old(self).send,
                 },
-                Err(e) => e.code == Code::STREAM_STATE_ERROR && final(self).send == old(self).send
-                    && ((id.initiator() != old(self).side && id.dir() == Dir::Uni) || (id.initiator() == old(self).side && send_abs(old(self).send, id).is_none())),
+                Err(e) => final(self).send == old(self).send && if e.code == Code::STREAM_LIMIT_ERROR {
+                        id.initiator() != old(self).side && id.index() >= old(self).max_remote[di(id.dir())]
+                    } else {
+                        e.code == Code::STREAM_STATE_ERROR
+                            && ((id.initiator() != old(self).side && id.dir() == Dir::Uni) || (id.initiator() == old(self).side && send_abs(old(self).send, id).is_none()))
+                    },
             }
 //@ end
 //@ extract quinn-proto/src/connection/streams/state.rs :: impl StreamsState::fn zero_rtt_rejected
@@ -751,7 +770,10 @@ impl StreamsState {
             old(self).sent_max_data.0 <= old(self).local_max_data || old(self).local_max_data > VarInt::MAX.0,
             old(self).data_recvd <= old(self).local_max_data < 0x4000_0000_0000_0000,
             frame.offset < 0x4000_0000_0000_0000, frame.data@.len() < 0x1_0000_0000, frame.data@.len() <= payload_len,
-        ensures match res {
+        ensures
+            // a frame naming a stream beyond the advertised count never opens it
+            old(self).remote_bounded() ==> final(self).remote_bounded(),
+            match res {
             Ok(_) => match recv_abs(old(self).recv, frame.id) {
                 Some(r0) => if !r0.reset {
                     let end = (frame.offset + frame.data@.len()) as u64;
@@ -783,7 +805,10 @@ impl StreamsState {
             old(self).sent_max_data.0 <= old(self).local_max_data || old(self).local_max_data > VarInt::MAX.0,
             old(self).data_recvd <= old(self).local_max_data < 0x4000_0000_0000_0000,
             frame.final_offset.0 < 0x4000_0000_0000_0000,
-        ensures match res {
+        ensures
+            // a frame naming a stream beyond the advertised count never opens it
+            old(self).remote_bounded() ==> final(self).remote_bounded(),
+            match res {
             Ok(_) => match recv_abs(old(self).recv, frame.id) {
                 // the first RESET_STREAM for a known stream: the bytes up to the final size that never arrived now count as received, and
                 // credit is returned for exactly the part of the stream that had not been credited yet -- each byte once
@@ -922,7 +947,7 @@ impl StreamsState {
             final(self).local_max_data == sat_add(old(self).local_max_data, sat_sub(credits, old(self).receive_window_shrink_debt)),
             final(self).receive_window_shrink_debt == sat_sub(old(self).receive_window_shrink_debt, credits),
             final(self).data_recvd == old(self).data_recvd, final(self).sent_max_data == old(self).sent_max_data, final(self).receive_window == old(self).receive_window,
-            final(self).recv == old(self).recv, final(self).send == old(self).send,
+            final(self).recv == old(self).recv, final(self).send == old(self).send, final(self).next_remote == old(self).next_remote, final(self).max_remote == old(self).max_remote,
             r.0 == (final(self).local_max_data <= VarInt::MAX.0 && final(self).local_max_data - final(self).sent_max_data.0 >= final(self).receive_window / 8),
 //@ end
 
